@@ -31,6 +31,15 @@ func init() {
 			} else {
 				kinds["impl=ok"]++
 			}
+			if cr.FullDone {
+				kinds["fullfile-done"]++
+				if cr.FullWhy == "" && cr.Impl.Status == 0 {
+					kinds["fullfile-bytes-compared"]++
+				}
+				if cr.FullWhy != "" {
+					kinds["fullfile-late-failure"]++
+				}
+			}
 			recordCorrespondence(r, "explore", cr)
 		})
 		fmt.Println(kinds)
